@@ -197,6 +197,31 @@ fn cmd_check(prop: &str, tier: &str) -> i32 {
             }
         }
     }
+    if prop == "C10" {
+        // second part of C10: readers on other threads (shuttle); once they are all gone,
+        // reuse must resume. Runs through jsim-sh with the same seed derivation.
+        let sh = std::path::PathBuf::from(props::sh_exe());
+        let count2: u64 = std::env::var("VERIF_RUNS").ok().and_then(|s| s.parse().ok()).unwrap_or(if tier == "thorough" { 400_000 } else { 24_000 });
+        let mut kids = Vec::new();
+        for w in 0..n {
+            let out = format!("{}/sh{}.json", outdir, w);
+            let ch = std::process::Command::new(&sh)
+                .args(["worker", prop, tier, &w.to_string(), &n.to_string(), &base.to_string(), &count2.to_string(), &out])
+                .stderr(std::process::Stdio::null())
+                .spawn();
+            match ch {
+                Ok(c) => kids.push((c, out)),
+                Err(e) => harness_errors.push(format!("cannot start jsim-sh: {}", e)),
+            }
+        }
+        for (mut c, out) in kids {
+            let st = c.wait();
+            match std::fs::read(&out).ok().and_then(|b| serde_json::from_slice::<Value>(&b).ok()) {
+                Some(v) if st.map(|s| s.success()).unwrap_or(false) => acc.merge_json(&v),
+                _ => harness_errors.push(format!("jsim-sh worker for C10 failed ({})", out)),
+            }
+        }
+    }
     if prop == "C15" {
         // the committed byte-exact golden images, independent of the vendored pinned copy
         let mut gv = Verdict::default();
